@@ -593,3 +593,115 @@ func (g *Gen) Finish() {
 		}
 	}
 }
+
+// ---------------------------------------------------------------------------------------------
+// QER-list shapes (C09): sessions whose PDRs carry arbitrary QER lists over three QER ids.
+
+// Shape describes one session: QER lists per PDR (indices 0..2 into the three QERs) and, per QER,
+// whether it is a GBR QER and its rank of uplink MBR.
+type Shape struct {
+	Lists [][]int
+	GBR   [3]bool
+	MBR   [3]uint64
+}
+
+// orderedSubsets of {0,1,2}: 16 lists including the empty one.
+func orderedSubsets() [][]int {
+	out := [][]int{{}}
+	for a := 0; a < 3; a++ {
+		out = append(out, []int{a})
+		for b := 0; b < 3; b++ {
+			if b == a {
+				continue
+			}
+
+			out = append(out, []int{a, b})
+
+			for c := 0; c < 3; c++ {
+				if c != a && c != b {
+					out = append(out, []int{a, b, c})
+				}
+			}
+		}
+	}
+
+	return out
+}
+
+// ShapeCount is the size of the enumeration: (16^2 + 16^3) list assignments x 8 GBR patterns x 8 MBR patterns.
+const ShapeCount = (16*16 + 16*16*16) * 64
+
+// ShapeAt returns the k-th shape of the enumeration.
+func ShapeAt(k int) Shape {
+	subs := orderedSubsets()
+	attr := k % 64
+	k /= 64
+
+	var lists [][]int
+
+	if k < 256 {
+		lists = [][]int{subs[k%16], subs[k/16]}
+	} else {
+		k -= 256
+		lists = [][]int{subs[k%16], subs[(k/16)%16], subs[k/256]}
+	}
+
+	s := Shape{Lists: lists}
+	for i := 0; i < 3; i++ {
+		s.GBR[i] = attr&(1<<i) != 0
+		s.MBR[i] = 1000
+
+		if attr&(8<<i) != 0 {
+			s.MBR[i] = 2000
+		}
+	}
+
+	return s
+}
+
+// RunShape establishes a session of the given shape on an associated peer and deletes it again.
+func (g *Gen) RunShape(peer string, sh Shape) {
+	w := g.W
+	ids := [3]uint32{g.id32(), 0, 0}
+
+	for i := 1; i < 3; i++ {
+		for {
+			ids[i] = g.id32()
+			if ids[i] != ids[0] && (i < 2 || ids[i] != ids[1]) {
+				break
+			}
+		}
+	}
+
+	g.ueCtr += 3
+	r := &SessReq{CP: g.cpSeid()}
+	r.CFAR = append(r.CFAR, pfcpx.FAR{ID: 7, Action: 2, HasFP: true, Dst: "core"})
+
+	for i, l := range sh.Lists {
+		var qs []uint32
+		for _, x := range l {
+			qs = append(qs, ids[x])
+		}
+
+		r.CPDR = append(r.CPDR, pfcpx.PDR{ID: uint16(i + 1), Prec: uint32(100 + i), Src: "access", FTEID: "explicit", TunIP: w.AccessIP, TEID: g.teid(),
+			UE: "explicit", UEIP: g.ueCtr, OHR: true, FAR: 7, QERs: qs})
+	}
+
+	for i := 0; i < 3; i++ {
+		q := pfcpx.QER{ID: ids[i], QFI: uint8(1 + i), ULMBR: sh.MBR[i], DLMBR: sh.MBR[i] + 500}
+		if sh.GBR[i] {
+			q.ULGBR, q.DLGBR = 100, 100
+		} else {
+			q.NoGBR = true
+		}
+
+		r.CQER = append(r.CQER, q)
+	}
+
+	ds := w.Estab(peer, r)
+	g.Stats["shape"]++
+
+	if len(ds) >= 1 && ds[0].Cause == 1 && ds[0].HasFSEID {
+		w.Del(peer, &SessReq{Hdr: ds[0].UPSeid})
+	}
+}
